@@ -2,7 +2,7 @@
    Directives: only those of ExtrOcamlBasic and ExtrOcamlString. *)
 From Coq Require Import Extraction ExtrOcamlBasic ExtrOcamlString.
 From Sylt Require Import Syntax.Resolved Resolve.PAst Resolve.Resolver Resolve.ResolveSpec Gen.GenResolve.
-From Sylt Require Import Dep.Deps Dep.Topo Resolve.Modules Resolve.Wf Resolve.NsShadow Resolve.TreeOk Resolve.Parens Resolve.ColumnsLua Resolve.Arrow.
+From Sylt Require Import Dep.Deps Dep.Topo Resolve.Modules Resolve.Wf Resolve.NsShadow Resolve.TreeOk Resolve.Parens Resolve.ColumnsLua Resolve.Arrow Resolve.Respell.
 Extraction Language OCaml.
 (* the resolver as pinned: the flags regenerated from name_resolution.rs on this run *)
 Definition resolve_pinned := Resolver.resolve gen_rflags.
@@ -18,4 +18,4 @@ Definition use_names_sep (ast : PAst.past) : bool := ColumnsLua.use_names_separa
 Extraction "resolvemodel.ml" Resolved.mkResolved PAst.mkModule resolve_pinned resolve_fixed spec_pinned nsfirst_pinned
   Wf.wf_ast no_ns_shadow_pinned TreeOk.tree_ok use_names_sep Arrow.arrows_simple gen_rflags
   Topo.init_order GenResolve.gen_assign_target_deps Resolved.stmt_span
-  Modules.tree Modules.use_path Modules.implicit_name GenResolve.gen_std_libs GenResolve.gen_std_uses.
+  Modules.tree Modules.use_path Modules.implicit_name Respell.respell_okb GenResolve.gen_std_libs GenResolve.gen_std_uses.
